@@ -254,7 +254,7 @@ func famBroadcastGrad(g *Gen) {
 
 func (g *Gen) dagStep(pool []int, expanding bool) int {
 	x := pool[g.intn(len(pool))]
-	switch g.intn(10) {
+	switch g.intn(11) {
 	case 0:
 		y, _ := g.do(Cmd{Op: OpScale, T: x, A: Dec{int64(g.pick(-1, 2, 5)), int64(g.pick(0, -1))}})
 		return y
@@ -294,6 +294,30 @@ func (g *Gen) dagStep(pool []int, expanding bool) int {
 			}
 		}
 		y, _ := g.do(Cmd{Op: OpPow, T: x, A: Dec{2, 0}})
+		return y
+	case 9:
+		// tiling: concatenate (possibly the SAME tensor several times, tracked and untracked mixed) along
+		// dimension 0, fold the pieces back to the common shape by reshape + SumAlong(0)
+		ds := g.shapeOf(x)
+		if len(ds) == 0 || len(ds) > 5 {
+			y, _ := g.do(Cmd{Op: OpScale, T: x, A: Dec{3, 0}})
+			return y
+		}
+		u := pool[g.intn(len(pool))]
+		parts := []Targ{T(x), T(x), T(u)}
+		if g.chance(0.5) {
+			parts = []Targ{T(u), T(x), T(pool[g.intn(len(pool))]), T(x)}
+		}
+		c, o := g.do(Cmd{Op: OpConcat, Targs: parts, Z: 0})
+		if o.Kind != "tensor" {
+			return c
+		}
+		g.tag("concat-tiling")
+		// non-uniform weighting along the concatenated dimension
+		w := g.leafDistinct(o.Dims, false, 0.5, 2)
+		cw, _ := g.do(Cmd{Op: OpBin, K: 10, T: c, U: T(w)})
+		r, _ := g.do(Cmd{Op: OpReshape, T: cw, Dims: append([]int{len(parts)}, ds...)})
+		y, _ := g.do(Cmd{Op: OpAlong, K: 0, T: r, Z: 0})
 		return y
 	default:
 		u := pool[g.intn(len(pool))]
@@ -483,12 +507,72 @@ func famTracking(g *Gen) {
 		switch g.intn(12) {
 		case 0:
 			newLeaf()
-		case 1, 2:
-			y, o := g.do(Cmd{Op: OpMath, K: g.pick(2, 3, 7), T: x})
+		case 1:
+			y, o := g.do(Cmd{Op: OpMath, K: g.intn(8), T: x})
 			derive(y, o.Kind == "tensor", true, x)
-		case 3, 4, 5:
-			y, o := g.do(Cmd{Op: OpBin, K: g.pick(8, 9, 10), T: x, U: T(u)})
+		case 2:
+			// every other one-operand method (same shape in, same shape out where possible)
+			var y int
+			var o Obs
+			switch g.intn(8) {
+			case 0:
+				y, o = g.do(Cmd{Op: OpPow, T: x, A: Dec{int64(g.pick(0, 0, 1, 2, 3)), 0}})
+				g.tag("pow")
+			case 1:
+				y, o = g.do(Cmd{Op: OpScale, T: x, A: Dec{int64(g.pick(0, 1, -1, 2)), 0}})
+			case 2:
+				y, o = g.do(Cmd{Op: OpSlice, T: x, Ranges: nil})
+			case 3:
+				y, o = g.do(Cmd{Op: OpReshape, T: x, Dims: ds})
+			case 4:
+				y, o = g.do(Cmd{Op: OpBroadcast, T: x, Dims: ds})
+			case 5:
+				y, o = g.do(Cmd{Op: OpUnsqueeze, T: x, Z: 0})
+				if o.Kind == "tensor" {
+					derive(y, true, true, x)
+					x = y
+					y, o = g.do(Cmd{Op: g.pick(OpSqueeze, OpAlong), K: g.intn(7), T: x, Z: 0})
+				}
+			case 6:
+				if len(ds) >= 2 && ds[len(ds)-1] == ds[len(ds)-2] {
+					y, o = g.do(Cmd{Op: OpTranspose, T: x})
+				} else {
+					y, o = g.do(Cmd{Op: OpFlatten, T: x, Z: 0})
+					if o.Kind == "tensor" {
+						derive(y, true, true, x)
+						x = y
+						y, o = g.do(Cmd{Op: OpReshape, T: x, Dims: ds})
+					}
+				}
+			default:
+				p := g.leafDistinct(ds, g.chance(0.5), -1, 1)
+				m.tracked[p], m.leaf[p] = g.Cmds[p].Flag, true
+				all = append(all, p)
+				y, o = g.do(Cmd{Op: OpPatch, T: x, Ranges: nil, U: T(p)})
+				derive(y, o.Kind == "tensor", true, x, p)
+				continue
+			}
+			derive(y, o.Kind == "tensor", true, x)
+		case 3, 4:
+			y, o := g.do(Cmd{Op: OpBin, K: g.pick(8, 9, 10, 11, 6, 7), T: x, U: T(u)})
 			derive(y, o.Kind == "tensor", true, x, u)
+		case 5:
+			// Dot / MatMul when the common shape allows it
+			if len(ds) >= 1 {
+				y, o := g.do(Cmd{Op: OpDot, T: x, U: T(u)})
+				if o.Kind == "tensor" {
+					derive(y, true, true, x, u)
+					// back to the common shape
+					if len(g.shapeOf(y)) < len(ds) {
+						z, o2 := g.do(Cmd{Op: OpUnsqueeze, T: y, Z: len(ds) - 1})
+						derive(z, o2.Kind == "tensor", true, y)
+						if o2.Kind == "tensor" {
+							z2, o3 := g.do(Cmd{Op: OpBroadcast, T: z, Dims: ds})
+							derive(z2, o3.Kind == "tensor", true, z)
+						}
+					}
+				}
+			}
 		case 6:
 			y, o := g.do(Cmd{Op: OpBin, K: g.intn(6), T: x, U: T(u)})
 			derive(y, o.Kind == "tensor", false, x, u)
